@@ -52,7 +52,8 @@ def run(pid, tier, runs, modname, fname, assumptions, rule, sample_fn=None, extr
             continue
         cases, st = tlc.run_sharded(r['module'], r['constants'], r.get('nshards', 16), tag=r.get('name', 'g'),
                                     invariants=['Emit'] + list(r.get('invariants', [])),
-                                    properties=r.get('properties', []), timeout=r.get('timeout', 3600))
+                                    properties=r.get('properties', []), constraints=r.get('constraints', []),
+                                    timeout=r.get('timeout', 3600))
         states += st['distinct']
         trans += st['generated']
         ncases += len(cases)
